@@ -188,6 +188,9 @@ func aliasable(v interface{}) bool {
 		return true // a struct of slices: passing the same value shares the memory
 	}
 	k := reflect.ValueOf(v).Kind()
+	if (k == reflect.Ptr || k == reflect.Map) && reflect.ValueOf(v).IsNil() {
+		return false // an optional argument left out
+	}
 	// struct values (shares, CRPs: structs of polynomials) share their backing arrays when passed twice
 	return k == reflect.Ptr || k == reflect.Map || k == reflect.Struct
 }
